@@ -27,7 +27,9 @@ type Model struct {
 	Boxes map[string][]mEntry
 }
 
-func newModel() *Model { return &Model{Flags: map[string]map[string]bool{}, Boxes: map[string][]mEntry{}} }
+func newModel() *Model {
+	return &Model{Flags: map[string]map[string]bool{}, Boxes: map[string][]mEntry{}}
+}
 
 func (m *Model) has(box, key string) int {
 	for i, e := range m.Boxes[box] {
